@@ -254,6 +254,8 @@ def main():
     known = load_known(pid)
     open_known = []
     for k in known:
+        if not k.get("witness_file"):
+            continue  # a repaired finding recorded without a replayable witness
         wf = os.path.join(ROOT, "known", k["witness_file"])
         if k.get("status") == "fixed":
             st, out = replay_one(binary, prop, pid, wf, tool_env)
